@@ -54,12 +54,12 @@ def scenarios(tier):
                 # (a) crashes only; every byte offset of every write is a torn-write crash point
                 if gi < 2 or (gi == 2 and thorough):
                     if thorough or gi == 0 or not delete:
-                        out.append(dict(base, budget=[2, 0, 0] if thorough and gi < 2 else [1, 0, 0],
+                        out.append(dict(base, budget=[2, 0, 0] if thorough and gi == 0 else [1, 0, 0],
                                         torn="every"))
                 # (b) crashes combined with skipped repetitions and clock jumps (partial saves at
                 #     arbitrary repetitions), coarse torn prefixes {1, n/2, n-1}
                 if thorough:
-                    budget = [2, 1, 2] if gi < 2 else [1, 1, 1]
+                    budget = [2, 1, 1] if gi < 2 else [1, 1, 1]
                 else:
                     budget = [1, 1, 1] if gi in (0, 1, 3) else ([1, 1, 0] if gi == 2 else [1, 0, 1])
                     if gi == 4 and delete:
@@ -425,11 +425,18 @@ def make_cost(sc):
     return cost
 
 
-def explore_scenario(sc, chk):
+def explore_scenario(sc, chk, shard=None):
+    ex_holder = []
+
     def run(ctx):
         case = dict(scenario=sc, choices="(see message)")
-        with chk.guard(("scenario",), case):
-            o = execute(sc, ctx, chk)
+        # the default (deviation-free) run is executed by every shard of a split family but
+        # judged and counted by shard 0 only
+        judge = chk if (shard is None or shard[0] == 0 or any(ctx.prefix)) else chk.child_check()
+        with judge.guard(("scenario",), case):
+            o = execute(sc, ctx, judge)
+            if judge is not chk:
+                return
             chk.count("eval_scenarios")
             chk.outcome("result", o[:2])
             for p in (o[-1] if o and isinstance(o[-1], tuple) else ()):
@@ -446,8 +453,12 @@ def explore_scenario(sc, chk):
                                 points=[l for a, l in ctx.points], outcome=[str(x) for x in o]))
 
     ex = choice.Explorer(run, tuple(sc["budget"]), cost=make_cost(sc), horizon=20000)
-    ex.explore()
-    chk.count("scenario_families")
+    if shard is None:
+        ex.explore()
+    else:
+        ex.explore_sharded(shard[0], shard[1])
+    if shard is None or shard[0] == 0:
+        chk.count("scenario_families")
     chk.extra["max_choice_points"] = max(chk.extra.get("max_choice_points", 0), ex.max_points)
 
 
@@ -466,8 +477,17 @@ def main(chk):
 
     order = sorted(range(len(scs)), key=lambda k: (-scs[k]["rep_max"] * (3 if scs[k]["torn"] == "every" else 1), k))
 
+    # big families (every-byte torn writes, two crashes, 500-repetition runs) are split over all
+    # shards below their first deviation; small ones are dealt whole
+    def big(sc):
+        return sc["torn"] == "every" or sc["budget"][0] >= 2 or sc["rep_max"] >= 499
+
     def worker(i, n, c):
-        for k in shard(iter(order), i, n):
+        for k in order:
+            if big(scs[k]):
+                explore_scenario(scs[k], c, shard=(i, n))
+        small = [k for k in order if not big(scs[k])]
+        for k in shard(iter(small), i, n):
             explore_scenario(scs[k], c)
 
     run_shards(chk, worker)
